@@ -857,7 +857,11 @@ impl<'a> Parser<'a> {
                     ix += 3;
                     loop {
                         if ix >= self.re.len() {
-                            return Err(Error::ParseError(ix, ParseError::UnclosedOpenParen));
+                            // a trailing backslash steps past the end, so don't report `ix` itself
+                            return Err(Error::ParseError(
+                                self.re.len(),
+                                ParseError::UnclosedOpenParen,
+                            ));
                         }
                         match bytes[ix] {
                             b')' => {
